@@ -63,16 +63,6 @@ def showVal : Val → String
 
 def vals? (s : String) : Option (List Val) := (strList s).mapM val?
 
-/-- can a pandas array of this dtype hold the value? -/
-def valOk : Dtype → Val → Bool
-  | .int, .int _ => true
-  | .flt, .flt _ _ => true | .flt, .null => true
-  | .str, .str _ => true | .str, .null => true
-  | .bool, .bool _ => true
-  | .time, .time _ => true | .time, .null => true
-  | .obj, _ => true
-  | _, _ => false
-
 def showCol (c : Col) : String := s!"{c.name}:{dtypeName c.dtype}:{showStrs (c.cells.map showVal)}"
 
 def showTable (t : Table) : String :=
